@@ -37,10 +37,10 @@ def run(c):
     binary = c.go_build(HARNESS)
     try:
         if binary and drv:
-            rc, out = c.go_run(binary, [f"-n={c.n(400, 8000)}"], timeout=2400)
+            rc, out = c.go_run(binary, [f"-n={c.n(400, 6000)}"], timeout=2400)
             c.harness_ok(rc, out, "verif-c17 (step mode)")
             c.correspond(out, drv, label="")
-            rc, out = c.go_run(binary, ["-mode=crash", f"-n={c.n(8, 100)}"], timeout=2400)
+            rc, out = c.go_run(binary, ["-mode=crash", f"-n={c.n(8, 80)}"], timeout=2400)
             c.harness_ok(rc, out, "verif-c17 (kill mode)")
             c.correspond(out, drv, label="crash")
     finally:
@@ -83,7 +83,7 @@ META = {
              "binlog write(2) left a partial record at the end of the file and fsbinlog's writer then refused to reopen it, so the engine "
              "stayed down; the model keeps the old behaviour as `stepOld` with a `decide` witness."),
     "note": ("Partial: SQLite durability/atomic commit, fsync, the Go scheduler and fsbinlog's fsync-before-Commit contract are trusted, not proved; "
-             "kill instants are sampled (quick ~20 kills, thorough ~250). The apply() branch that skips bytes below the stored offset is not "
+             "kill instants are sampled (quick ~20 kills, thorough ~200). The apply() branch that skips bytes below the stored offset is not "
              "modelled: the proved invariant tx.off <= dbOffset (also observed on the real engine after every op) makes its guard false. "
              "Snapshot meta and the ReadAndExit/CommitOnEachWrite/NoBinlog options are not modelled."),
     "design_ref": "DESIGN.md §6 C17",
